@@ -16,6 +16,7 @@ mod rules;
 mod runner;
 mod total;
 mod trace;
+mod viseca;
 
 fn main() {
     let args: Vec<String> = std::env::args().collect();
@@ -26,6 +27,10 @@ fn main() {
     let mode = args[1].clone();
     if mode == "ledger-trace" {
         trace::main(&args[2..]);
+        return;
+    }
+    if mode == "viseca-trace" {
+        viseca::trace_main(&args[2..]);
         return;
     }
     if mode == "loader-trace" {
@@ -40,6 +45,7 @@ fn main() {
         "ledger" => runner::run_records(&opts, ledger::replay),
         "ledger-alias" => { let w = workdir.clone(); runner::run_records(&opts, move |i, r| ledger::replay_alias(i, r, &w)) }
         "conv" => { let w = workdir.clone(); runner::run_records(&opts, move |i, r| conv::replay(i, r, &w)) }
+        "viseca" => { let w = workdir.clone(); runner::run_records(&opts, move |i, r| viseca::replay(i, r, &w)) }
         "camt" => { let w = workdir.clone(); runner::run_records(&opts, move |i, r| camt::replay(i, r, &w)) }
         "csv" => { let w = workdir.clone(); runner::run_records(&opts, move |i, r| csvimp::replay(i, r, &w)) }
         "diag" => { let w = workdir.clone(); runner::run_records(&opts, move |i, r| diag::replay(i, r, &w)) }
